@@ -3,6 +3,7 @@ import ApdVerif.Model.Conv
 import ApdVerif.Model.Dispatch
 import ApdVerif.Model.BigInt
 import ApdVerif.Model.Text
+import ApdVerif.Imp.Ops
 import ApdVerif.Spec.Grammar
 import ApdVerif.Oracle.Roots
 import ApdVerif.Spec.Specials
@@ -630,6 +631,25 @@ def handleAlias (id : String) (t : List String) : Option (List String × Nat × 
         let o : Out := { d := d.d, fl := Cond.ofNat fl, err := e, aux := aux }
         let dlv (o : Out) : Bool := o.err == .none || (o.err == .trap && (o.fl &&& c.traps).any)
         let same (u v : Out) : Bool := u.err == v.err && (!(dlv u) || (u.fl == v.fl && u.d == v.d && u.aux == v.aux))
+        -- the store-level program of the operation, run under the same aliasing pattern
+        let cells : Option (Nat × Nat × Nat × Dec) := match name with
+          | "fresh" => some (0, 1, 2, {})
+          | "fresh-nan" => some (0, 1, 2, { form := .nan, neg := true })
+          | "fresh-big" => some (0, 1, 2, { form := .infinite, neg := true, exp := 77, coeff := 123456789012345678901234567890123456789012345678901234567890 })
+          | "d=x" => some (1, 1, 2, {})
+          | "d=y" => some (2, 1, 2, {})
+          | "x=y" => some (0, 1, 1, {})
+          | "d=x=y" => some (1, 1, 1, {})
+          | _ => none
+        match cells with
+        | some (dc, xc, yc, pre) =>
+          let h : Apd.Imp.Heap := fun cell => if cell == 0 then pre else if cell == 1 then x else if cell == 2 then y else {}
+          match Apd.Imp.execCtxOp op c dc xc yc iarg h with
+          | some ((mfl, merr, maux), h') =>
+            let mo : Out := { d := h' dc, fl := mfl, err := merr, aux := maux }
+            if !(same mo o) then res := merge res ([s!"{id} MISMATCH alias-imp[{name}] model= {showOut mo}"], 1, 0)
+          | none => pure ()
+        | none => pure ()
         if name == "fresh" then
           base := some o
           match runCtxOp op c x y iarg with
